@@ -123,3 +123,46 @@ pub open spec fn ctx_advance(v: CtxView) -> CtxView {
     if v.seq >= 0xffff_ffff_ffff_ffff { CtxView { overflowed: true, ..v } } else { CtxView { seq: v.seq + 1, ..v } }
 }
 }
+
+verus!{
+// ---- §4.1 DHKEM(Group, KDF): Encap / AuthEncap / Decap / AuthDecap over serialized keys ----
+// The group enters through the trait-level spec functions of `DhKeyExchange`:
+//   s_pk_of(skm) = SerializePublicKey(pk(DeserializePrivateKey(skm)))
+//   s_dh(skm, pkm) = Some(DH(sk, pk)) serialized (Ndh bytes), or None where the RFC demands an abort
+pub open spec fn dhkem_shared_secret(nh: nat, kem_id: u16, dh: Bytes, kem_context: Bytes) -> Bytes {
+    extract_and_expand_spec(nh, dh, kem_suite_id_spec(kem_id), kem_context, nh)   // Nsecret = Nh
+}
+// sender = None: Encap(pkR) with ephemeral skE;  sender = Some((skS, pkSm)): AuthEncap(pkR, skS)
+pub open spec fn dhkem_encap_spec<Kex: crate::dhkex::DhKeyExchange>(nh: nat, kem_id: u16, pk_rm: Bytes, sender: Option<(Bytes, Bytes)>, sk_e: Bytes) -> Option<(Bytes, Bytes)> {
+    let enc = Kex::s_pk_of(sk_e);
+    match sender {
+        None => match Kex::s_dh(sk_e, pk_rm) {
+            Some(dh) => Some((dhkem_shared_secret(nh, kem_id, dh, enc + pk_rm), enc)),
+            None => None,
+        },
+        Some(s) => match (Kex::s_dh(sk_e, pk_rm), Kex::s_dh(s.0, pk_rm)) {
+            (Some(dh_e), Some(dh_s)) => Some((dhkem_shared_secret(nh, kem_id, dh_e + dh_s, enc + pk_rm + s.1), enc)),
+            _ => None,
+        },
+    }
+}
+// pk_sm = None: Decap(enc, skR);  Some(pkSm): AuthDecap(enc, skR, pkS)
+pub open spec fn dhkem_decap_spec<Kex: crate::dhkex::DhKeyExchange>(nh: nat, kem_id: u16, sk_r: Bytes, pk_sm: Option<Bytes>, enc: Bytes) -> Option<Bytes> {
+    let pk_rm = Kex::s_pk_of(sk_r);
+    match pk_sm {
+        None => match Kex::s_dh(sk_r, enc) {
+            Some(dh) => Some(dhkem_shared_secret(nh, kem_id, dh, enc + pk_rm)),
+            None => None,
+        },
+        Some(pks) => match (Kex::s_dh(sk_r, enc), Kex::s_dh(sk_r, pks)) {
+            (Some(dh_e), Some(dh_s)) => Some(dhkem_shared_secret(nh, kem_id, dh_e + dh_s, enc + pk_rm + pks)),
+            _ => None,
+        },
+    }
+}
+
+// ---- §5.1 SetupS / SetupR results as an abstract context ----
+pub open spec fn ctx_from_schedule(ks: (Bytes, Bytes, Bytes), suite: Bytes) -> CtxView {
+    CtxView { overflowed: false, seq: 0, key: ks.0, base_nonce: ks.1, exporter_secret: ks.2, suite_id: suite }
+}
+}
